@@ -113,3 +113,18 @@ chk("C23", "E1 program explorer + E4 order histories",
     "For every generator kind x distribution (incl. array-valued parameters, choice, permutation) x shape/chunking the array is computed once; every depth<=2 derived program must equal the NumPy op on that realization; recomputing, rebuilding with the same seed (same name and values), pickling, and reseeding (different values) are checked on every source, and parent/child are recomputed in both orders twice.",
     "Trusted: the first realization as reference; synchronous scheduler.",
     "DESIGN.md §4 C23")
+chk("C24", "E1 (chains up to length 3, exhaustive)",
+    "complete enumeration of (source kind x storage grid x getter options x requested chunking x chain of <= 3 slice/index/rechunk/elemwise/transpose steps) over a recording array-like",
+    "Every chain of up to three steps on from_array(source, chunks=c) for recording array-likes with and without a storage grid, lock, fancy=False, custom getitem, inline_array, asarray=False -- and plain ndarrays with the deferred-region path forced -- is computed: the result equals NumPy indexing of the source and every logged read request stays within the source's bounds and is non-fancy when fancy=False.",
+    "Trusted: the recording array-like stands in for zarr/h5py stores (not installed); the harness sets _NUMPY_SLICE_PUSHDOWN_NBYTES_LIMIT=0 for ndarray sources.",
+    "DESIGN.md §4 C24")
+chk("C25", "E1 (depth-1 exhaustive argument enumeration)",
+    "complete enumeration of (chunking x region offset x lock x compute x return_stored/load_stored x pairs x target kind) for da.store and of (chunking x axis) for the npy-stack round trip",
+    "Every combination is executed against sentinel-filled targets larger than the source: target[region] equals the source, everything else keeps the sentinel, write requests stay inside the target, returned/loaded arrays equal the source; to_npy_stack/from_npy_stack round-trips every chunking and axis.",
+    "Trusted: scratch directory under /verif/.scratch; load_stored=False with compute=False returns per-chunk targets by documentation (targets only are judged).",
+    "DESIGN.md §4 C25")
+chk("C28", "E1 (depth-2 exhaustive argument enumeration)",
+    "complete enumeration of (producer x mask x chunking x follow-on op) with and without compute_chunk_sizes, true block sizes read from the executed graph",
+    "For every data-dependent producer (NumPy and dask masks incl. every mask for n<=4, x[x>k], unique, nonzero, flatnonzero, argwhere, 2-D row/column/full masks) over every chunking: compute_chunk_sizes() must set exactly the sizes of the executed blocks, the shape must equal NumPy's and every follow-on op must equal NumPy; without it every follow-on op must either raise or return NumPy's value and shape.",
+    "Trusted: any exception is an acceptable refusal while sizes are unknown.",
+    "DESIGN.md §4 C28")
